@@ -230,7 +230,9 @@ def gen_doc(rng, depth=0, good=False):
 
 SOUP = ["a", "b", "s", "=", "{", "}", ";", "\n", " ", "!", ".", ".help", ".type", ".optional", ".expert_level", "#", "#phil", "__ON__",
         "__OFF__", "__END__", '"', "'", '"""', "'''", "\\", "1", "int", "True", "x y", "include", "file", "$a", "\\\n", "a.b", "__r__", "(", ")",
-        ",", "\t", ".multiple", ".call", ".sequential_format", "abc"]
+        ",", "\t", ".multiple", ".call", ".sequential_format", "abc",
+        # text that is special to Python's own string formatting (error messages quote the user's token)
+        "%", "%s", "%d", "%(a)s", "{0}", "{}", "{a}"]
 
 
 def gen_soup(rng):
